@@ -1952,7 +1952,11 @@ class Scatter(Output):
                 values = np.nan*np.zeros([len(quantiles), len(bins)], 'float')
                 for q in range(len(quantiles)):
                     for i in range(len(bins)):
-                        I = np.where((y >= edges[i]) & (y < edges[i+1]))[0]
+                        if i == len(bins) - 1:
+                            # The last bin includes its upper edge
+                            I = np.where((y >= edges[i]) & (y <= edges[i+1]))[0]
+                        else:
+                            I = np.where((y >= edges[i]) & (y < edges[i+1]))[0]
                         if len(I) > 0:
                             values[q, i] = np.percentile(x[I], quantiles[q]*100)
                     style = 'k-'
